@@ -651,7 +651,28 @@ def check_sequence(case) -> Outcome:
     presented: set[str] = set()
     uses = 0
     seen = set()
+    aged_at = None          # index into `issued` below which tokens are older than a clock step
     for idx, step in enumerate(case["steps"]):
+        if step[0] == "age":
+            # the clock moves on (around the 20 minute lifetime the server gives its replay records) and, optionally,
+            # somebody else logs in - ordinary events on a running server.  The browser keeps its csrf cookie value
+            # (the statement's "cookie it was issued against"); what was spent stays spent.
+            from .. import clock
+            _, secs, third_party = step
+            kept = {j: jars[j].cookie("csrf") for j in jars}
+            clock.advance(secs)
+            if third_party:
+                # a third party logs in, and so do the two browsers (their access tokens may have run out)
+                mgmt.Api(w, "user", "session")
+                for j in jars:
+                    jars[j].access = jars[j].refresh = None
+                    jars[j].login()
+            for j, v in kept.items():
+                if v is not None and jars[j].cookie("csrf") != v:
+                    jars[j].c.set_cookie("csrf", v)
+            aged_at = len(issued)
+            out.cls("aged", "aged+login" if third_party else "aged-only")
+            continue
         if step[0] == "issue":
             _, service, jar = step
             source = "page"
@@ -664,6 +685,9 @@ def check_sequence(case) -> Outcome:
                 service, source = "keys", "refresh"
             else:
                 tok = jars[jar].token(service)
+            if tok is None and aged_at is not None:
+                out.cls("aged-session-cannot-obtain-token")
+                continue
             if tok is None:
                 out.fail("harness/media-role-cannot-obtain-token/" + service, f"step {idx}")
                 continue
@@ -697,6 +721,9 @@ def check_sequence(case) -> Outcome:
         rejected = csrf_rejected(op, r, ctx)
         out.cls(f"op:{op}", "model-accept" if not reasons else "model-reject:" + reasons[0])
         where = f"step {idx} {step} -> {r.status} diff={d[:4]}"
+        if r.status == 401 and aged_at is not None and not d:
+            out.cls("aged-session-unauthenticated")     # the access token ran out with the clock; nothing was decided
+            continue
         if r.status == 404:
             out.cls("target-gone")          # uses_stream / uses_keypair answered before the handler ran
             continue
@@ -723,6 +750,10 @@ def check_sequence(case) -> Outcome:
                 if sig not in seen:
                     seen.add(sig)
                     out.fail(sig, f"{where}; model rejects because {reasons}")
+        elif aged_at is not None and rec is not None and issued.index(rec) < aged_at:
+            # a token first presented after the clock moved on: how long an unspent token (and the session that
+            # presents it) lives is not part of the statement, so neither outcome is judged
+            out.cls("aged-unspent-token-not-judged")
         else:
             if rejected:
                 sig = f"csrf/valid-token-rejected/{sig_op(op)}"
@@ -757,7 +788,8 @@ class CsrfSequences(Engine):
         @st.composite
         def case(draw):
             first = draw(st.lists(issue, min_size=1, max_size=3))
-            rest = draw(st.lists(st.one_of(use, use, use, issue), min_size=2, max_size=12 if tier == "quick" else 24))
+            age_step = st.tuples(st.just("age"), st.sampled_from([60, 1199, 1200, 1201, 1230, 3600, 86400]), st.booleans())
+            rest = draw(st.lists(st.one_of(use, use, use, use, use, use, issue, issue, age_step), min_size=2, max_size=12 if tier == "quick" else 24))
             kind = draw(st.integers(0, 3))
             if kind:
                 # focused patterns: a token issued for the operation's own service to jar j is used properly, then
@@ -773,6 +805,11 @@ class CsrfSequences(Engine):
                           draw(st.sampled_from([j, j, "A", "B"])), draw(tamper_strategy()))
                 proper = ("use", 0, op, j, "none")
                 rest = ([proper, second] if kind < 3 else [second, proper]) + rest
+                if draw(st.integers(0, 2)) == 0:
+                    # spend, let time pass (either side of the 20 minute replay-record lifetime), present again
+                    age = ("age", draw(st.sampled_from([60, 1199, 1200, 1201, 1230, 3600, 86400])), draw(st.booleans()))
+                    again = ("use", 0, draw(st.sampled_from([op, op, draw(st.sampled_from(SEQ_OP_NAMES))])), j, "none")
+                    rest = [proper, age, again] + rest
             return {"steps": [list(s) for s in first + rest]}
         return case()
 
